@@ -15,7 +15,7 @@ use crate::props::gcase::{gcase, GCase};
 use crate::runner::{CheckResult, Env, Job, Outcome, PropJob};
 use crate::util::{canon, splitmix, to_ascii, Seq};
 
-pub const RULE: &str = "hand-packed graphs: case = 2..5 nodes of length K..K+40 with distinct pseudo-random content added directly to a BaseGraph (so a window running into a neighbour is recognisable), a node index (first / middle / last node all occur) and a call history of next() and nth(n) with n drawn from {0..4} ∪ {5..remaining+3} ∪ {exactly remaining, remaining-1, remaining+1} ∪ {huge, usize::MAX}; model = the node's k-mer list and a cursor: nth(n) returns list[cur+n] and advances to cur+n+1, or None when past the end, after which every later call returns None; len() of a fresh iterator = n-K+1; no panic. Pipeline graphs: iterating `&graph` visits every graph k-mer exactly once (compared with the node sequences and with the table), and Mphf::from_chunked_iterator / _parallel over `&graph` gives every k-mer a distinct slot < n. Non-trivial = the history contains a skip > 4 and a call that reaches or passes the end.";
+pub const RULE: &str = "hand-packed graphs: case = 2..5 nodes of length K..K+40 with distinct pseudo-random content added directly to a BaseGraph (so a window running into a neighbour is recognisable), a node index (first / middle / last node all occur) and a call history of next() and nth(n) with n drawn from {0..4} ∪ {5..remaining+3} ∪ {exactly remaining, remaining-1, remaining+1} ∪ {huge, usize::MAX}; model = the node's k-mer list and a cursor: nth(n) returns list[cur+n] and advances to cur+n+1, or None when past the end, after which every later call returns None; len() of a fresh iterator = n-K+1; no panic. The node-level iterators (`for node in &graph`, iter_nodes()) are driven by the same histories and by skip/step_by against the id list 0..len with a cursor, and their size_hint must bracket the number of nodes left after every call. Pipeline graphs: iterating `&graph` visits every graph k-mer exactly once (compared with the node sequences and with the table), and Mphf::from_chunked_iterator / _parallel over `&graph` gives every k-mer a distinct slot < n. Non-trivial = the history contains a skip > 4 and a call that reaches or passes the end.";
 pub const TECHNIQUE: &str = "seeded proptest over next()/nth(n) call histories against an index-into-list model; MPHF slot-distinctness check";
 
 #[derive(Debug, Clone, Serialize, Deserialize)]
@@ -56,6 +56,102 @@ fn case_strategy() -> BoxedStrategy<Case> {
     )
         .prop_map(|(lens, seed, node, calls)| Case { lens, seed, node, calls })
         .boxed()
+}
+
+/// Node-level iteration under a call history: `it` must behave as the list of node ids `0..total` with a cursor.
+/// `plan(remaining)` gives the next call: None = next(), Some(n) = nth(n).  After every call the reported
+/// size_hint must bracket the number of nodes really left (Iterator's documented contract).
+fn drive_nodes<I: Iterator>(
+    what: &str,
+    mut it: I,
+    id: impl Fn(&I::Item) -> usize,
+    total: usize,
+    ncalls: usize,
+    mut plan: impl FnMut(usize, usize) -> Option<usize>,
+) -> Result<(), String> {
+    let mut cur = 0usize;
+    let hint_ok = |it: &I, cur: usize, when: &str| -> Result<(), String> {
+        let left = total - cur;
+        let (lo, hi) = it.size_hint();
+        if lo > left || hi.map_or(false, |h| h < left) {
+            return Err(format!("{}: size_hint {:?} {} but {} of {} nodes are left", what, (lo, hi), when, left, total));
+        }
+        Ok(())
+    };
+    hint_ok(&it, 0, "on a fresh iterator")?;
+    for ci in 0..ncalls {
+        let call = plan(ci, total - cur);
+        let (got, n, desc) = match call {
+            None => (it.next(), 0usize, "next()".to_string()),
+            Some(n) => (it.nth(n), n, format!("nth({})", n)),
+        };
+        let want = if cur < total && n < total - cur { Some(cur + n) } else { None };
+        let got_id = got.as_ref().map(|x| id(x));
+        if got_id != want {
+            return Err(format!(
+                "{}: call {} {} with {} of {} nodes consumed returned node {:?}, expected {:?}",
+                what, ci, desc, cur, total, got_id, want
+            ));
+        }
+        cur = match want {
+            Some(w) => w + 1,
+            None => total,
+        };
+        hint_ok(&it, cur, &format!("after call {} {}", ci, desc))?;
+    }
+    let mut rest = Vec::new();
+    for x in it.take(total + 8) {
+        rest.push(id(&x));
+    }
+    if rest != (cur..total).collect::<Vec<_>>() {
+        return Err(format!("{}: draining after the call history yields nodes {:?}.., expected {}..{}", what, &rest[..rest.len().min(6)], cur, total));
+    }
+    Ok(())
+}
+
+/// Both node-level iterators of a graph (`&graph` and `iter_nodes()`) under pseudo-random next()/nth(n) histories
+/// and under the std adaptors built on them (skip, step_by).
+pub fn check_node_iters<K: Kmer, D: std::fmt::Debug>(g: &DebruijnGraph<K, D>, seed: u64, rounds: usize) -> Result<(), String> {
+    let total = g.len();
+    for round in 0..rounds {
+        for which in 0..2 {
+            let mut st = seed ^ ((round as u64) << 8) ^ 0x6e6f6465;
+            let ncalls = 1 + (splitmix(&mut st) % 8) as usize;
+            let plan = move |_ci: usize, remaining: usize| -> Option<usize> {
+                let r = splitmix(&mut st);
+                match r % 8 {
+                    0 | 1 | 2 => None,
+                    3 | 4 => Some(((r >> 8) % 4) as usize),
+                    5 => Some(((r >> 8) as usize) % (remaining + 2)),
+                    6 => Some(remaining.saturating_sub(1)),
+                    _ => Some(if (r >> 8) & 1 == 0 { remaining } else { usize::MAX }),
+                }
+            };
+            if which == 0 {
+                drive_nodes("for node in &graph", g.into_iter(), |x| x.node_id, total, ncalls, plan)?;
+            } else {
+                drive_nodes("graph.iter_nodes()", g.iter_nodes(), |x| x.node_id, total, ncalls, plan)?;
+            }
+        }
+        let mut st = seed ^ ((round as u64) << 16) ^ 0x61646170;
+        let a = (splitmix(&mut st) as usize) % (total + 2);
+        let step = 1 + (splitmix(&mut st) as usize) % 4;
+        let want: Vec<usize> = (0..total).skip(a).step_by(step).collect();
+        let got1: Vec<usize> = g.into_iter().skip(a).step_by(step).take(total + 8).map(|x| x.node_id).collect();
+        let got2: Vec<usize> = g.iter_nodes().skip(a).step_by(step).take(total + 8).map(|x| x.node_id).collect();
+        if got1 != want || got2 != want {
+            return Err(format!(
+                "node iteration with skip({}).step_by({}) over {} nodes visits {:?}.. / {:?}.., expected {:?}..",
+                a,
+                step,
+                total,
+                &got1[..got1.len().min(6)],
+                &got2[..got2.len().min(6)],
+                &want[..want.len().min(6)]
+            ));
+        }
+    }
+    Ok(())
 }
 
 pub fn check<K: Kmer + Send + Sync>(c: &Case) -> CheckResult {
@@ -113,6 +209,23 @@ pub fn check<K: Kmer + Send + Sync>(c: &Case) -> CheckResult {
         if all != list {
             return Err(format!("plain iteration of node {} yields {} k-mers, expected the node's {} k-mers in order", ni, all.len(), total));
         }
+    }
+    // the node-level iterators under the same call history (positions count nodes instead of k-mers)
+    {
+        let calls = &c.calls;
+        let plan = |ci: usize, remaining: usize| -> Option<usize> {
+            match &calls[ci] {
+                Call::Next => None,
+                Call::Small(s) => Some(*s as usize),
+                Call::Rel(d) => Some(((remaining as i64 + *d as i64).max(0)) as usize),
+                Call::Frac(f) => Some(crate::util::idx(*f, remaining + 4)),
+                Call::Huge(h) => Some(*h as usize),
+                Call::Max => Some(usize::MAX),
+            }
+        };
+        drive_nodes("for node in &graph", (&graph).into_iter(), |x| x.node_id, graph.len(), calls.len(), plan)?;
+        drive_nodes("graph.iter_nodes()", graph.iter_nodes(), |x| x.node_id, graph.len(), calls.len(), plan)?;
+        check_node_iters(&graph, c.seed, 2)?;
     }
     let mut it = graph.get_node_kmer(ni).into_iter();
     let mut cur = 0usize; // model cursor
@@ -246,6 +359,7 @@ fn check_graph<K: Kmer + Send + Sync>(c: &GCase) -> CheckResult {
     if per_node != g.len() {
         return Err(format!("iterating &graph visits {} nodes of {}", per_node, g.len()));
     }
+    check_node_iters(&g, c.aux, 3)?;
     let canon_all: BTreeSet<Seq> = all.iter().map(|s| canon(s, c.stranded)).collect();
     if canon_all.len() != all.len() || all.len() != seen.len() || !canon_all.iter().all(|s| seen.contains_key(s)) {
         return Err(format!(
